@@ -6,7 +6,7 @@ AsyncIOThreadSafeScheduler, with the loop thread and a user thread under the int
   clock to reach the next timer, or for the end of the scenario) and whose ready queue logs every
   append / pop of the handles that belong to the scheduled action.  asyncio's own `_run_once` runs unmodified.
 * events are logged in the vocabulary of the Lean model `Thr2Aio` (`stepL` labels) together with the model
-  action (0 loop thread, 1 user, 2 clock reaches the due time, 3 loop started), so that the observed run can
+  action (0 loop thread, 1 user, 2 clock reaches the due time, 3 loop started, 4 loop collects a due timer), so that the observed run can
   be replayed step for step by the driver (`aio_replay`).
 
 Scenario JSON: {"fl": "plain"|"ts", "kind": "soon"|"rel", "mode": "onLoop"|"foreign"|"notRunning",
@@ -133,7 +133,7 @@ class SteppableLoop(asyncio.SelectorEventLoop):
         if n is None:
             return
         if caller == "_run_once":
-            self.ev(0, f"collect{n}")
+            self.ev(4, f"collect{n}")
         elif n == 3:
             self.ev(1, "enq")
         elif n == 1:
